@@ -783,3 +783,53 @@ def rule_pathidx(ctx, prop: str) -> RuleResult:
         raise AnalysisError(f"PATHIDX: expected >= 4 index-ordering sites in internal_cursors.py, found {n_sites}")
     res.floor = 5
     return res
+
+
+def rule_fwdsib(ctx, prop: str) -> RuleResult:
+    """Sibling agreement inside one elementary forwarder: `fwd_node` (single statements)
+    and `fwd_block` (statement ranges) describe the SAME edit.  Whenever either maps a
+    position to a path that descends into a newly created node — a two-element path
+    [(attr, P), (inner_attr, ...)] — P is the position of that new node, so the set of P
+    expressions used by the two siblings must coincide."""
+    ix = ctx.ix
+    res = RuleResult("FWDSIB")
+    m = ix.module(IC)
+    groups: Dict[str, Dict[str, Func]] = {}
+    for qn, f in m.funcs.items():
+        if isinstance(f.node, ast.FunctionDef) and f.node.name in ("fwd_node", "fwd_block") and "." in qn:
+            groups.setdefault(qn.rsplit(".", 1)[0], {})[f.node.name] = f
+
+    def descents(f: Func) -> Set[str]:
+        out = set()
+        for n in f.body_nodes():
+            if isinstance(n, ast.Return) and isinstance(n.value, ast.List) and len(n.value.elts) == 2:
+                first = n.value.elts[0]
+                if isinstance(first, ast.Tuple) and len(first.elts) == 2:
+                    out.add(ast.unparse(first.elts[1]))
+        return out
+
+    n_pairs = 0
+    for owner, fs in sorted(groups.items()):
+        if set(fs) != {"fwd_node", "fwd_block"}:
+            continue
+        n_pairs += 1
+        res.instances += 1
+        res.analysed.append(f"{IC}:{owner}")
+        dn, db = descents(fs["fwd_node"]), descents(fs["fwd_block"])
+        if not dn and not db:
+            res.ob(True)
+            continue
+        res.nontrivial += 1
+        ok = dn == db
+        res.ob(ok)
+        res.sample(f"{owner}: new-node position in fwd_node {sorted(dn)} / fwd_block {sorted(db)}: {ok}")
+        if not ok:
+            res.add(
+                Finding("FWDSIB", IC, fs["fwd_block"].lineno, owner, "descent-position",
+                        f"{owner}: single statements are forwarded below the new node at position {sorted(dn)} but statement ranges below position {sorted(db)}: "
+                        f"a block cursor strictly inside the wrapped range is sent to a different (or non-existent) statement")
+            )
+    if n_pairs < 3:
+        raise AnalysisError(f"FWDSIB: expected >= 3 fwd_node/fwd_block sibling pairs in internal_cursors.py, found {n_pairs}")
+    res.floor = 3
+    return res
